@@ -15,6 +15,8 @@ func run(c *vh.Ctx) {
 	pool = tls.VerifC31Pool()
 	runPairs(c)
 	runSlices(c)
+	runReconvert(c)
+	runRemarshalAfterEdit(c)
 	runHellos(c)
 	flushCases(c)
 }
@@ -77,6 +79,7 @@ func runPairs(c *vh.Ctx) {
 		for it := 0; it < iters; it++ {
 			pub := pair.NewPub()
 			fill(c.Rng, reflect.ValueOf(pub).Elem(), false, 0)
+			tweakKnownID(c.Rng, pair.Name, reflect.ValueOf(pub).Elem(), it)
 			var priv, pub2 any
 			if pn, _ := vh.Recover(func() { priv = pair.ToPriv(pub); pub2 = pair.ToPub(priv) }); pn {
 				c.Fail("conv/"+pair.Name+"/panic", "conversion panicked", fmt.Sprintf("%+v", pub), "panic", "no panic")
@@ -100,6 +103,7 @@ func runPairs(c *vh.Ctx) {
 			// the other direction
 			pr := pair.NewPriv()
 			fill(c.Rng, reflect.ValueOf(pr).Elem(), false, 0)
+			tweakKnownID(c.Rng, pair.Name, reflect.ValueOf(pr).Elem(), it)
 			var pb, pr2 any
 			if pn, _ := vh.Recover(func() { pb = pair.ToPub(pr); pr2 = pair.ToPriv(pb) }); pn {
 				c.Fail("conv/"+pair.Name+"/panic", "conversion panicked", fmt.Sprintf("%+v", pr), "panic", "no panic")
@@ -164,6 +168,21 @@ func emitConv(c *vh.Ctx, pair tls.VerifC31Pair, it int) {
 		}
 		cf.Set(reflect.Zero(cf.Type()))
 		addCase("conv", fmt.Sprintf("CvCHpub %s %s", coqObj(pr), coqObj(pb)), "CHpub/"+key, true, nil)
+	case "CipherSuiteTLS13", "CipherSuite":
+		// func-valued fields are emitted as identities (code pointers); ids alternate between implemented suites and random ones
+		tag := map[string]string{"CipherSuiteTLS13": "C3", "CipherSuite": "CS"}[pair.Name]
+		pub := pair.NewPub()
+		fill(rng, reflect.ValueOf(pub).Elem(), false, 0)
+		tweakKnownID(rng, pair.Name, reflect.ValueOf(pub).Elem(), it)
+		addCase("conv", fmt.Sprintf("Cv%spriv %s %s", tag, coqPtr(pub), coqPtr(pair.ToPriv(pub))), tag+"priv/"+key, true, nil)
+		pr := pair.NewPriv()
+		fill(rng, reflect.ValueOf(pr).Elem(), false, 0)
+		tweakKnownID(rng, pair.Name, reflect.ValueOf(pr).Elem(), it+1)
+		if tag == "C3" {
+			addCase("conv", fmt.Sprintf("CvC3pub %s %s", coqPtr(pr), coqPtr(pair.ToPub(pr))), tag+"pub/"+key, true, nil)
+		} else {
+			addCase("conv", fmt.Sprintf("CvCSpub %s %s", coqPtr(pr), coqObj(pair.ToPub(pr))), tag+"pub/"+key, true, nil)
+		}
 	case "ServerHello", "CertReq13":
 		tag := map[string]string{"ServerHello": "SH", "CertReq13": "CR"}[pair.Name]
 		pub := pair.NewPub()
